@@ -1,6 +1,6 @@
 (* extraction of the C12 models; directives: ExtrOcamlBasic only
    (bool, option, unit, list, prod, sumbool, sumor -> OCaml natives); N, positive, nat stay Coq datatypes *)
 From Coq Require Import ExtrOcamlBasic.
-From CssV Require Import Base Regex Tokenizer Urls UrlQuote.
+From CssV Require Import Base Regex Tokenizer Quote Gen.Quote Urls UrlQuote.
 Extraction "urls_model.ml" getUrls replaceUrls replaceUrls_style style_urls
-  huri hstring urivalue uritokenvalue stringtokenvalue stringvalue forbidden tokenize.
+  huri hstring urivalue uritokenvalue stringtokenvalue hstringvalue forbidden tokenize.
